@@ -39,6 +39,7 @@ class MsgEndpoint:
         self.buf = b''
         self.on_msg, self.on_close = on_msg, on_close
         self.closed = False
+        self.lost_after_close = 0
         self.conn = sim.connect(port, self, host=host, cert=cert)
 
     def on_data(self, data):
@@ -48,6 +49,9 @@ class MsgEndpoint:
             if len(self.buf) < 4 + n:
                 break
             raw, self.buf = self.buf[4:4 + n], self.buf[4 + n:]
+            if self.closed:
+                self.lost_after_close += 1
+                continue
             self.on_msg(self.message.loads(raw))
 
     def on_eof(self):
@@ -92,8 +96,19 @@ class Truth:
     def pending(self, alg):
         return self.must[alg] | self.opt[alg]
 
+    def blocking(self, alg):
+        """what counts as pending for an upstream algorithm: everything owed, and
+        the optional entries (leniency after a failure) only if the code kept them"""
+        held = set()
+        n = self.w.nodes().get(alg)
+        if n is not None:
+            held = set(n.get('todo'))
+        return self.must[alg] | (self.opt[alg] & held)
+
     def idle(self):
-        return not any(self.must.values()) and not self.inflight and not self.queued
+        if self.inflight or self.queued or any(self.must.values()):
+            return False
+        return not any(self.blocking(a) for a in list(self.opt) if self.opt[a])
 
     def nothing_owed(self):
         return not any(self.must.values())
@@ -447,30 +462,32 @@ class PipeWorld:
 
         G, ref = self.G, self.ref
         before, _q = self.snap()
+        # C04 (ii): what this dispatch has to release, judged on the state before it
+        expect = []
+        if ctx.fsm.is_pipeline_active() and not schedule.is_paused():
+            for alg in list(G.must):
+                for t in sorted(G.must[alg]):
+                    if not (self.blocked(alg, t) or G.inflight[(alg, t)]):
+                        expect.append((alg, t))
         jobs = self.real['njb']()
         released = {(j.tag, t) for j in jobs for t in j.get('do')}
         if released:
             self.probes['batch_nonempty'] += 1
-        # C04 (ii): every runnable pending unit is in this batch
-        if ctx.fsm.is_pipeline_active() and not schedule.is_paused():
-            for alg in list(G.must):
-                for t in sorted(G.must[alg]):
-                    if self.blocked(alg, t) or G.inflight[(alg, t)]:
-                        continue
-                    if (alg, t) not in released and t not in before.get(alg, ((), (), ()))[2]:
-                        self.violate('C04', 'runnable_not_released', f'{self.ref.kind[alg]}',
-                                     f'{alg}[{t}] is pending, all upstream idle, not released by this dispatch; '
-                                     f'code todo={before.get(alg)}')
+        for alg, t in expect:
+            if (alg, t) not in released and t not in before.get(alg, ((), (), ()))[2]:
+                self.violate('C04', 'runnable_not_released', f'{self.ref.kind[alg]}',
+                             f'{alg}[{t}] is pending, all upstream idle, not released by this dispatch; '
+                             f'code todo/doing/do before={before.get(alg)}')
         return jobs
 
     def blocked(self, alg, t):
         G = self.G
         for a in self.ref.anc[alg]:
             if t == ALL:
-                if G.pending(a) or any(k[0] == a and v for k, v in G.inflight.items()):
+                if G.blocking(a) or any(k[0] == a and v for k, v in G.inflight.items()):
                     return True
             else:
-                if t in G.pending(a) or ALL in G.pending(a) or G.inflight[(a, t)] or G.inflight[(a, ALL)]:
+                if t in G.blocking(a) or ALL in G.blocking(a) or G.inflight[(a, t)] or G.inflight[(a, ALL)]:
                     return True
         return False
 
@@ -485,7 +502,7 @@ class PipeWorld:
         # C03 (i)
         if G.inflight[(alg, t)]:
             self.probes['rerequest_released_while_doing'] += 1
-            self.violate('C03', 'two_in_flight', 'rerequest_while_doing' if (alg, t) in self.rerequested else 'other',
+            self.violate('C03', 'two_in_flight', 'pending_again_while_doing',
                          f'{alg}[{t}] released while an execution of it is still in flight')
         # C02 minimality
         if t not in G.pending(alg):
@@ -494,14 +511,15 @@ class PipeWorld:
         # C01
         for a in sorted(ref.anc[alg]):
             bad = None
+            pend = G.blocking(a)
             if t == ALL:
-                if G.pending(a):
-                    bad = f'upstream {a} has pending {sorted(G.pending(a))}'
+                if pend:
+                    bad = f'upstream {a} has pending {sorted(pend)}'
                 elif any(k[0] == a and v for k, v in G.inflight.items()):
                     bad = f'upstream {a} is executing'
             else:
                 for tt in (t, ALL):
-                    if tt in G.pending(a):
+                    if tt in pend:
                         bad = f'upstream {a} has {tt} pending'
                     elif G.inflight[(a, tt)]:
                         bad = f'upstream {a} is executing {tt}'
@@ -861,7 +879,11 @@ class PipeWorld:
         r = self.sim.run(until=lambda: G.idle() and not G.handed, max_steps=self.sim.steps + cfg['max_steps'] * 3,
                          max_time=horizon)
         self.tail_result = r
-        if self.dead_units:
+        working = {(wk.task.jobid, wk.task.target or ALL) for wk in self.workers if wk.state == 'working' and wk.task}
+        lost = [u for u in G.handed if (u[0], u[1]) not in working]
+        if self.dead_units or lost:
+            # a unit handed to a worker that died or disconnected is never answered: the property
+            # speaks of workers that always answer
             self.probes['tail_skipped_dead_worker'] += 1
             return
         if r == 'until':
